@@ -59,6 +59,8 @@ static thread_local TaskState* tls_task = nullptr;
 static thread_local int tls_in_rt = 0;
 
 struct RtGuard { RtGuard() { ++tls_in_rt; } ~RtGuard() { --tls_in_rt; } };
+static void (*g_nest_cb)(void*, int, int) = nullptr;
+static void* g_nest_arg = nullptr;
 
 static inline uint64_t mix(uint64_t h, uint64_t v)
 {
@@ -277,7 +279,7 @@ void begin_op(int op_index)
 {
     RtGuard g;
     TaskState* t = tls_task;
-    if (t->cur_op >= 0 && t->cur_op != op_index) t->ops[t->cur_op].live_after = int64_t(t->live.size());
+    if (t->cur_op >= 0 && t->cur_op != op_index && !t->ops[t->cur_op].in_call) t->ops[t->cur_op].live_after = int64_t(t->live.size());
     t->cur_op = op_index;
     OpRec& o = t->ops[op_index];
     o.ev_begin = uint32_t(g_events.size());
@@ -409,13 +411,41 @@ void termf(int term, const char* p, int64_t len)
     log_event(K_TERMF, (int64_t(term) << 32) | (off & 0xffffffff), len);
 }
 
-void red(int rule, uint64_t digest, uint64_t sdigest, int ctx)
+bool red(int rule, uint64_t digest, uint64_t sdigest, int ctx)
 {
     RtGuard g;
     OpRec* o = cur();
-    if (!o) return;
+    if (!o) return false;
     o->reds.push_back(OpRec::Red{ rule, digest, sdigest, ctx, g_seq });
     log_event(K_RED, (int64_t(rule) << 8) | ctx, int64_t(digest & 0x7fffffffffffffffull));
+    if (o->nest_at >= 0 && !o->nest_fired && int64_t(o->reds.size()) - 1 == o->nest_at && g_nest_cb)
+    {
+        TaskState* t = tls_task;
+        if (t->cur_op + 1 < int(t->ops.size()) && !t->ops[size_t(t->cur_op) + 1].in_call)
+        {
+            o->nest_fired = true;
+            return true;
+        }
+    }
+    return false;
+}
+
+void set_nest_callback(void (*cb)(void*, int task, int op), void* arg) { g_nest_cb = cb; g_nest_arg = arg; }
+
+// a functor of the current call makes the task's next call itself (same thread, the outer call still on the stack)
+void run_nested()
+{
+    TaskState* t = tls_task;
+    if (!t || !g_nest_cb) return;
+    int outer = t->cur_op;
+    size_t live0;
+    { RtGuard g; live0 = t->live.size(); t->ops[size_t(outer) + 1].ran_nested = true; }
+    g_nest_cb(g_nest_arg, t->id, outer + 1);
+    {
+        RtGuard g;
+        t->ops[size_t(outer) + 1].live_after = int64_t(t->live.size()) - int64_t(live0);
+        t->cur_op = outer;
+    }
 }
 
 void ctx_touch(const void* addr)
